@@ -691,8 +691,10 @@ func runStrategy(inst reflect.Value, b Bars, limit time.Duration) (acts []int64,
 
 // ---- Coq printers -------------------------------------------------------------------------------------
 
-func coqOuts(t genType, term string) string {
-	call := fmt.Sprintf("(%s_Compute %s", t.Coq, term)
+func coqOuts(t genType, term string) string { return coqOutsNamed(t, t.Coq+"_Compute", term) }
+
+func coqOutsNamed(t genType, fn, term string) string {
+	call := fmt.Sprintf("(%s %s", fn, term)
 	for i := 0; i < t.Inputs; i++ {
 		call += fmt.Sprintf(" (EIn %d)", i)
 	}
